@@ -248,3 +248,184 @@ def describe(t, fld, db_version):
         m = re.search(r"\.(\d+)$", n)
         out.append("a pending record's `%s`" % inv.get(int(m.group(1)), "?") if m else n)
     return "(" + ", ".join(out) + ")"
+
+
+# ---- second and third obligation: the wiring of the single-user query and of the pending picks ----
+def run_wiring(ob, tier, seed, funcs, repo="/repo"):
+    """C15.user_state_wiring: `StorageManager::get_user_state` (async body) and
+    `Transaction::get_users_states` compose their ingredients as the Kani obligations
+    C15.read_in_tx / C15.bulk_read_in_tx assume:
+
+      U1  the database is asked first with the caller's user and flag; an error other than NotFound
+          is returned as is
+      U2  the transaction log is consulted exactly when a transaction is open, same user and flag
+      U3  database record d and pending record t: the arbiter is compare_db_and_transaction_records
+          (d.epoch, t, flag); Some(r) => Ok(r); None => Ok(d)
+      U4  only t => Ok(t); only d => Ok(d); neither => Err(NotFound)
+      U5  the only thing put into the object cache is a clone of the database's record
+      W1  get_users_states: a fresh map; get_users_data(self, users); per (user, list):
+          find_appropriate_item(list, flag), inserted under that user exactly when Some; the map
+          is returned (loop body once per walk)
+    """
+    t0 = time.time()
+    nq = [0]
+
+    def sat(*cs):
+        nq[0] += 1
+        s = z3.Solver()
+        s.add(*cs)
+        return s.check() == z3.sat
+
+    fld = value_state_fields(repo)
+    if not fld or "epoch" not in fld:
+        return {"engine": "mir", "verdict": "inconclusive", "reason": "struct ValueState not found in akd/src/storage/types.rs", "wall_s": 0, "queries": 0}
+    f = g = None
+    for n, h in funcs.items():
+        if n.endswith("::get_user_state::{closure#0}") and "manager::<impl" in n:
+            f = h
+        if n.endswith("::get_users_states") and "transaction::<impl" in n:
+            g = h
+    if f is None or g is None:
+        return {"engine": "mir", "verdict": "inconclusive", "reason": "StorageManager::get_user_state / Transaction::get_users_states not found in the MIR dump", "wall_s": 0, "queries": 0}
+    fails = []
+    saw = {"db_err": False, "both_take": False, "both_keep": False, "tx_only": False, "db_only": False, "neither": False, "w_insert": False, "w_skip": False}
+    try:
+        w = corowalk.CoWalker(f, max_steps=200000)
+        paths = [p for p in w.run() if not (p.panic and "resumed after" in p.panic)]
+        for p in paths:
+            if p.panic:
+                fails.append("U: get_user_state can panic: %s" % p.panic[:60])
+                continue
+            res = ready(p)
+            names = [e[0] for e in p.events]
+            if not (isinstance(res, Agg) and res.kind == "Result") or not names or not names[0].endswith("Database>::get_user_state"):
+                fails.append("U1: get_user_state does not start with the database read / returns %r" % (p.ret,))
+                continue
+            dbe = p.events[0]
+            dok, dres = dbe[2], dbe[3]
+            db_args = [strip(x) for x in dbe[1]][1:]
+            d = dres.fields["Ok"][0]
+            act = [e for e in p.events if e[0].endswith("is_transaction_active")]
+            tx_i = [i for i, n in enumerate(names) if n.endswith("Transaction::get_user_state")]
+            arb_i = [i for i, n in enumerate(names) if n.endswith(EPOCH_ARBITER) or n.endswith(ARBITER)]
+            put_i = [i for i, n in enumerate(names) if n.endswith("TimedCache::put") or n.endswith("TimedCache::batch_put")]
+            clones = {p.events[i][3]: strip(p.events[i][1][0]) for i, n in enumerate(names) if n.endswith("Clone>::clone")}
+            for i in put_i:
+                rec = strip(p.events[i][1][1])
+                inner = rec.fields.get(0) if isinstance(rec, Agg) else None
+                if clones.get(inner) != d:
+                    fails.append("U5: something else than a clone of the database's record is put into the cache: %r" % (rec,))
+            if not act:
+                # the database failed with an error that is not NotFound
+                saw["db_err"] = True
+                if res.fields["ok"] is not False or res.fields["Err"][0] != dres.fields["Err"][0] or sat(p.cond, dok):
+                    fails.append("U1: a path without the open-transaction test that is not the database's error")
+                continue
+            have_db = not sat(p.cond, z3.Not(dok))
+            if not have_db and sat(p.cond, dok):
+                fails.append("U1: path does not decide the database result")
+                continue
+            if not tx_i:
+                if sat(p.cond, act[0][3]):
+                    fails.append("U2: a transaction is open but its log is not consulted")
+                t = None
+                have_tx = False
+            else:
+                if sat(p.cond, z3.Not(act[0][3])):
+                    fails.append("U2: the transaction log is read although no transaction is open")
+                if [strip(x) for x in p.events[tx_i[0]][1]][1:] != db_args:
+                    fails.append("U2: the transaction log is asked for another user / flag than the database")
+                tr = p.events[tx_i[0]][3]
+                have_tx = not sat(p.cond, tr.fields["disc"] != 1)
+                if not have_tx and sat(p.cond, tr.fields["disc"] == 1):
+                    fails.append("U2: path does not decide the pending pick")
+                    continue
+                t = tr.fields["Some"][0]
+            ok = res.fields["ok"]
+            val = res.fields["Ok"][0] if ok is True else None
+            if have_db and have_tx:
+                if not arb_i or not names[arb_i[0]].endswith(EPOCH_ARBITER):
+                    fails.append("U3: database and pending record are not arbitrated by compare_db_and_transaction_records")
+                    continue
+                a = [strip(x) for x in p.events[arb_i[0]][1]]
+                if a != [Sym(d.name + ".%d" % fld["epoch"]), t, db_args[-1]]:
+                    fails.append("U3: the arbiter is given %r, expected (database record's epoch, pending record, the caller's flag)" % (a,))
+                ar = p.events[arb_i[0]][3]
+                if not sat(p.cond, ar.fields["disc"] != 1):
+                    saw["both_take"] = True
+                    if val != ar.fields["Some"][0]:
+                        fails.append("U3: the arbiter chose a record but %r is returned" % (val,))
+                else:
+                    saw["both_keep"] = True
+                    if val != d:
+                        fails.append("U3: the arbiter kept the database's record but %r is returned" % (val,))
+            elif have_tx:
+                saw["tx_only"] = True
+                if arb_i or val != t:
+                    fails.append("U4: only the transaction knows the user but %r is returned" % (res.fields,))
+            elif have_db:
+                saw["db_only"] = True
+                if val != d:
+                    fails.append("U4: only the database knows the user but %r is returned" % (res.fields,))
+            else:
+                saw["neither"] = True
+                e = res.fields.get("Err", {}).get(0)
+                if ok is not False or not (isinstance(e, Agg) and "NotFound" in e.kind):
+                    fails.append("U4: nobody knows the user but the result is %r" % (res.fields,))
+        # ---- Transaction::get_users_states ----------------------------------------------------
+        w2 = corowalk.CoWalker(g, max_steps=200000)
+        w2.loop_bound = 1
+        for p in w2.run():
+            if p.panic:
+                fails.append("W1: get_users_states can panic: %s" % p.panic[:60])
+                continue
+            names = [e[0] for e in p.events]
+            new_i = [i for i, n in enumerate(names) if n.endswith("HashMap::new")]
+            gd_i = [i for i, n in enumerate(names) if n.endswith("Transaction::get_users_data")]
+            nx_i = [i for i, n in enumerate(names) if n.endswith("as Iterator>::next")]
+            fi_i = [i for i, n in enumerate(names) if n.endswith("Transaction::find_appropriate_item")]
+            in_i = [i for i, n in enumerate(names) if n.endswith("HashMap::insert")]
+            if not new_i or not gd_i or p.ret != p.events[new_i[0]][3]:
+                fails.append("W1: get_users_states does not return its fresh map / does not read the pending data")
+                continue
+            the_map = p.events[new_i[0]][3]
+            if [strip(x) for x in p.events[gd_i[0]][1]] != [Sym("init:_1"), Sym("init:_2")]:
+                fails.append("W1: get_users_data is not asked for the caller's users")
+            if not fi_i:
+                if in_i:
+                    fails.append("W1: an entry is written without a pick")
+                continue
+            ent = p.events[nx_i[0]][3].fields["Some"][0]
+            a = [strip(x) for x in p.events[fi_i[0]][1]]
+            if a != [Sym(ent.name + ".1"), Sym("init:_3")]:
+                fails.append("W1: find_appropriate_item is given %r, expected (the user's pending states, the caller's flag)" % (a,))
+            fr = p.events[fi_i[0]][3]
+            if not sat(p.cond, fr.fields["disc"] != 1):
+                saw["w_insert"] = True
+                if len(in_i) != 1 or [strip(x) for x in p.events[in_i[0]][1]] != [the_map, Sym(ent.name + ".0"), fr.fields["Some"][0]]:
+                    fails.append("W1: the pick is not inserted once under its user")
+            elif not sat(p.cond, fr.fields["disc"] == 1):
+                saw["w_skip"] = True
+                if in_i:
+                    fails.append("W1: an entry is written although there is no pick")
+    except Unsupported as ex:
+        return {"engine": "mir", "verdict": "inconclusive", "reason": "MIR construct outside the event walker's fragment: %s" % ex, "wall_s": round(time.time() - t0, 2), "queries": 0}
+    except (KeyError, AttributeError, IndexError, TypeError) as ex:
+        return {"engine": "mir", "verdict": "inconclusive", "reason": "unexpected event shape in the walk (%r): the code left the fragment this obligation understands" % (ex,), "wall_s": round(time.time() - t0, 2), "queries": 0}
+    uniq = []
+    for x in fails:
+        if x not in uniq:
+            uniq.append(x)
+    wit = all(saw.values())
+    if not wit and not uniq:
+        uniq.append("witness: path classes not all reached: %s (walker too coarse)" % saw)
+    res = {"engine": "mir", "wall_s": round(time.time() - t0, 2), "queries": nq[0], "solver_s": 0.0, "witness_ok": wit,
+           "witness": "%d paths of get_user_state; reached: %s" % (len(paths), saw), "extra": {"paths": len(paths)}}
+    if uniq:
+        res["verdict"] = "fail"
+        res["reason"] = "; ".join(uniq[:3])
+        res["failures"] = uniq
+    else:
+        res["verdict"] = "pass"
+        res["reason"] = "%d queries decided, U1-U5 and W1 hold" % nq[0]
+    return res
